@@ -76,7 +76,7 @@ func NewOrchestrator(parentLogger logger.Logger, schema base.LogSchema, keyField
 		localMap := o.workerMap.MakeLocalMap()
 		onCreating := func([]string) {}
 		for _, pipelineID := range initialPipelineIDs {
-			keys := strings.Split(pipelineID, ",")
+			keys := splitPipelineID(pipelineID)
 			if len(keys) != len(keyFields) {
 				// FIXME: deal with new keys, shorter old keys should be okay
 				ologger.Warnf("ignore malformed existing pipeline ID: %s", pipelineID)
@@ -105,7 +105,7 @@ func (o *byKeySetOrchestrator) Shutdown() {
 // newPipeline creates channel and pipeline workers for a new key-set, must be protected by global mutex
 func (o *byKeySetOrchestrator) newPipeline(keys []string, onStopped func()) chan<- []*base.LogRecord {
 	outputTag := o.tagBuilder.Build(keys)
-	workerID := strings.Join(keys, ",")
+	workerID := joinPipelineID(keys)
 	inputChannel := make(chan []*base.LogRecord, defs.IntermediateBufferedChannelSize)
 	pipelineLogger := o.logger.WithField(defs.LabelName, workerID)
 	pipelineLogger.Infof("new pipeline tag=%s", outputTag)
@@ -144,7 +144,7 @@ func (oc *byKeySetOrchestratorSink) Close() {
 }
 
 func (oc *byKeySetOrchestratorSink) onNewLinkToPipeline(permKeys []string) {
-	workerID := strings.Join(permKeys, ",")
+	workerID := joinPipelineID(permKeys)
 	oc.logger.WithField(defs.LabelName, workerID).Info("creating new link from input to pipeline worker")
 }
 
@@ -160,4 +160,46 @@ func (oc *byKeySetOrchestratorSink) flushAllLocalBuffers(forceAll bool) {
 		}
 		cache.Flush(now, oc.logger, mergedKey)
 	})
+}
+
+const (
+	pipelineIDSeparator = ','
+	pipelineIDEscape    = '\\'
+)
+
+// joinPipelineID makes the pipeline ID (also buffer ID) from key values. Separators inside values are escaped so that
+// different key sets never share an ID and the ID can be split back into the same values.
+func joinPipelineID(keys []string) string {
+	sb := strings.Builder{}
+	for i, key := range keys {
+		if i > 0 {
+			sb.WriteByte(pipelineIDSeparator)
+		}
+		for j := 0; j < len(key); j++ {
+			if c := key[j]; c == pipelineIDSeparator || c == pipelineIDEscape {
+				sb.WriteByte(pipelineIDEscape)
+			}
+			sb.WriteByte(key[j])
+		}
+	}
+	return sb.String()
+}
+
+// splitPipelineID splits a pipeline ID made by joinPipelineID into key values
+func splitPipelineID(pipelineID string) []string {
+	keys := make([]string, 0, 10)
+	current := make([]byte, 0, len(pipelineID))
+	for i := 0; i < len(pipelineID); i++ {
+		switch c := pipelineID[i]; {
+		case c == pipelineIDEscape && i+1 < len(pipelineID):
+			i++
+			current = append(current, pipelineID[i])
+		case c == pipelineIDSeparator:
+			keys = append(keys, string(current))
+			current = current[:0]
+		default:
+			current = append(current, c)
+		}
+	}
+	return append(keys, string(current))
 }
